@@ -58,6 +58,10 @@ fn main() {
         let rest: Vec<String> = std::env::args().skip(2).collect();
         c19conc::bm_one(&rest);
     }
+    if prop == "--ring-smoke" {
+        let rest: Vec<String> = std::env::args().skip(2).collect();
+        ring::run_smoke(&rest);
+    }
     if prop == "--ring-one" {
         let rest: Vec<String> = std::env::args().skip(2).collect();
         ring::run_one(&rest);
